@@ -94,6 +94,95 @@ def run_audit(props: list[str] | None = None, jobs: int = 16) -> dict:
     return out
 
 
+# ------------------------------------------------------------------------------------------------
+# kept seeded changes (/verif/seeded/<id>/patch.diff) re-checked as source overrides
+# ------------------------------------------------------------------------------------------------
+def _seed_overrides(patch_path: str):
+    """Apply a unified diff to scratch copies of the files it touches (outside /repo and /verif, removed at once);
+    returns {relpath: new source} or (None, reason)."""
+    import re
+    import shutil
+    import subprocess
+    import tempfile
+    from ..model import REPO
+    txt = open(patch_path, encoding="utf-8").read()
+    files = re.findall(r"^\+\+\+ b/(\S+)", txt, flags=re.M)
+    if not files:
+        return None, "no files in patch"
+    tmp = tempfile.mkdtemp(prefix="opstatic-seed-")
+    try:
+        for rel in files:
+            src = os.path.join(REPO, rel)
+            if not os.path.exists(src):
+                return None, f"{rel} missing"
+            dst = os.path.join(tmp, rel)
+            os.makedirs(os.path.dirname(dst), exist_ok=True)
+            shutil.copy(src, dst)
+        r = subprocess.run(["patch", "-p1", "--no-backup-if-mismatch", "-s", "-i", patch_path], cwd=tmp, capture_output=True, text=True)
+        if r.returncode != 0:
+            return None, "patch does not apply to the current tree: " + (r.stdout + r.stderr).strip()[:120]
+        return {rel: open(os.path.join(tmp, rel), encoding="utf-8").read() for rel in files}, ""
+    finally:
+        shutil.rmtree(tmp, ignore_errors=True)
+
+
+def _run_seed(args):
+    prop, seed_id, patch_path = args
+    from ..model import Program, AnchorError
+    from ..resolve import Resolver
+    from ..report import Context
+    ov, why = _seed_overrides(patch_path)
+    if ov is None:
+        return seed_id, "skipped", why
+    mod = importlib.import_module(f"opstatic.rules.{prop}")
+
+    def findings(o):
+        prog = Program(overrides=o)
+        if prog.parse_errors:
+            return None, "does not parse"
+        ctx = Context(prop, "quick", prog, Resolver(prog))
+        try:
+            mod.run(ctx)
+            ctx.check_floors(bool(ctx.findings))
+        except AnchorError as ex:
+            return "anchor", str(ex)
+        return {(fd.rule, fd.function, fd.construct) for fd in ctx.findings}, ""
+    base, msg = findings({})
+    if base is None or base == "anchor":
+        return seed_id, "error", f"baseline: {msg}"
+    var, msg = findings(ov)
+    if var is None:
+        return seed_id, "error", msg
+    if var == "anchor":
+        return seed_id, "missed", f"analysis aborted instead of reporting: {msg[:150]}"
+    new = sorted(var - base)
+    if new:
+        return seed_id, "detected", f"{new[0][0]} {new[0][2][:100]}"
+    return seed_id, "missed", "no new finding"
+
+
+def run_seeds(props: list[str] | None = None, jobs: int = 16) -> dict:
+    import json
+    from ..report import VERIF
+    root = os.path.join(VERIF, "seeded")
+    todo = []
+    if os.path.isdir(root):
+        for d in sorted(os.listdir(root)):
+            mp, pp = os.path.join(root, d, "meta.json"), os.path.join(root, d, "patch.diff")
+            if os.path.exists(mp) and os.path.exists(pp):
+                prop = json.load(open(mp)).get("property")
+                if props is None or prop in props:
+                    todo.append((prop, d, pp))
+    t0 = time.time()
+    results = []
+    if todo:
+        with ProcessPoolExecutor(max_workers=min(jobs, len(todo))) as ex:
+            results = list(ex.map(_run_seed, todo))
+    return {"seeds_total": len(todo), "seeds_detected": sum(1 for r in results if r[1] == "detected"),
+            "seeds_skipped": sum(1 for r in results if r[1] == "skipped"), "wall_s": round(time.time() - t0, 2),
+            "details": [{"seed": r[0], "status": r[1], "info": r[2]} for r in results]}
+
+
 def main(argv=None) -> int:
     props = (argv or sys.argv[1:]) or None
     res = run_audit(props)
@@ -105,4 +194,10 @@ def main(argv=None) -> int:
         print(f"{flag} {d['id']:<34} {d['kind']:<10} {d['status']:<11} {d['info'][:120]}")
     print(f"mutants killed {res['mutants_killed']}/{res['mutants_total']}, equivalents silent {res['equivalents_silent']}/"
           f"{res['equivalents_total']}, skipped {res['skipped']}, {res['wall_s']}s")
+    sr = run_seeds(props)
+    for d in sr["details"]:
+        flag = "ok " if d["status"] == "detected" else ("-- " if d["status"] == "skipped" else "BAD")
+        bad += flag == "BAD"
+        print(f"{flag} seed {d['seed']:<36} {d['status']:<9} {d['info'][:120]}")
+    print(f"seeded changes detected {sr['seeds_detected']}/{sr['seeds_total']}, skipped {sr['seeds_skipped']}, {sr['wall_s']}s")
     return 1 if bad else 0
